@@ -35,6 +35,11 @@ type C19Work struct {
 	// own post-processor, "plain" = one without): the files of this call are post-processed by this
 	// call's backend, or by nobody if it has no post-processor
 	OtherFirst string `json:"other_first,omitempty"`
+	// WarmSame: the same Generator persisted the same response before (fault plan applies there too);
+	// then somebody else overwrote or truncated some of the files (Clobber: job indexes); the observed
+	// call must write every file again
+	WarmSame bool  `json:"warm_same,omitempty"`
+	Clobber  []int `json:"clobber,omitempty"`
 }
 
 type c19Driver struct{}
@@ -118,6 +123,12 @@ func (c19Driver) Gen(seed uint64, tier string) *simrt.Spec {
 	w.PPYields = r.Intn(4)
 	if r.Chance(1, 8) {
 		w.OtherFirst = []string{"pp", "plain"}[r.Intn(2)]
+	}
+	if n > 0 && r.Chance(1, 8) {
+		w.WarmSame = true
+		for k := 0; k < 1+r.Intn(3); k++ {
+			w.Clobber = append(w.Clobber, r.Intn(n))
+		}
 	}
 	// storage faults
 	if failMode >= 2 && n > 0 {
@@ -341,6 +352,18 @@ func (c19Driver) Run(spec *simrt.Spec, agg *Agg, keep bool) *Outcome {
 				_ = simrt.Chdir(cwd)
 				dir_utils.SetGlobalwd(work.GlobalWd)
 			}
+			simrt.Boundary("observed-call")
+		}
+		if work.WarmSame {
+			_ = g.Persist(be.response())
+			for _, ci := range work.Clobber {
+				if ci >= 0 && ci < len(expPath) && expPath[ci] != "" {
+					if _, err := simrt.Stat(expPath[ci]); err == nil {
+						_ = simrt.WriteFile(expPath[ci], []byte("overwritten by somebody else after the earlier call\n"), 0o644)
+					}
+				}
+			}
+			be.ppCalls, be.ppFails, be.ppLive = map[string]int{}, 0, 0
 			simrt.Boundary("observed-call")
 		}
 		// Persist is handed the entries directly (Generate above only installs the
